@@ -564,7 +564,10 @@ pub fn cmd_merge(r: &mut Runner, t: &[&str]) -> String {
     // the previous generation exactly once in groups of at most fd-limit
     if !trace.is_empty() {
         if let Err(e) = check_trace(&trace, nrows_traced, batch.parse().unwrap(), fd.parse().unwrap(), threads.parse().unwrap_or(1)) {
-            r.check(false, || format!("C19 merge structure: {} :: {}", e, line));
+            // the worker protocol / grouping of the real run differs from the modelled one: a broken
+            // correspondence (the check escalates), not by itself a wrong result
+            r.checks += 1;
+            r.mismatches.push(format!("line={} C19 merge structure differs from the model of merge.rs: {} :: {}", r.line_no, e, line));
         } else {
             r.checks += 1;
         }
